@@ -171,8 +171,11 @@ def step (s : TS) : Op → TS
           { s with tasks := upd s.tasks t { tk with phase := .done },
                    xs := upd s.xs tk.xfer (bump { x with rq := true, attempts := 0 }) }
         | .queueRemotely, _ =>                                                              -- manager.py:725-728
+          -- `increase_queue_attempts(); await transfer.state.queue()`: a transition wherever `queue` is defined
           { s with tasks := upd s.tasks t { tk with phase := .done },
-                   xs := upd s.xs tk.xfer (bump { x with attempts := x.attempts + 1 }) }
+                   xs := upd s.xs tk.xfer (bump (if x.st = .queued ∨ x.st = .downloading ∨ x.st = .uploading
+                     then { x with attempts := x.attempts + 1 }
+                     else { x with attempts := x.attempts + 1, st := .queued, rq := false })) }
         | _, .transferring =>                                                               -- start_transferring, task goes on
           { s with xs := upd s.xs tk.xfer (bump (if x.st = .initializing then
               { x with st := (if x.dir = .upload then .uploading else .downloading), rq := false, attempts := 0 } else x)) }
